@@ -59,6 +59,7 @@ type run struct {
 	// cuts[N] = shadow at job checkpoint N (union over the operators' acks) — M4
 	cuts map[uint64]map[string]ophar.KeyShadow
 	ep   *epochs
+	chunk func(reader, call int) int
 }
 
 func (x *run) logf(format string, a ...any) {
@@ -117,10 +118,11 @@ func newRun(c *lib.Ctx, o runOpts) *run {
 	x := &run{c: c, r: r, o: o, cuts: map[uint64]map[string]ophar.KeyShadow{}}
 	x.keys = lib.KeyUniverse(r, 3+r.Intn(10), 3)
 	chunkSeed := r.Int63()
-	x.src = cluster.NewVSource(o.splits, o.perSplit, o.tsMode, func(reader, call int) int {
+	x.chunk = func(reader, call int) int {
 		h := lib.HashParts("chunk", chunkSeed, reader, call)
 		return int(h[0]%8) % 6 // 0..5 records per read, including empty reads
-	})
+	}
+	x.src = cluster.NewVSource(o.splits, o.perSplit, o.tsMode, x.chunk)
 	x.tun = vhook.TuningValues{
 		MemTableSize: uint64(lib.Pick(r, []int{300, 1500, 1 << 20})), MaxWALSize: uint64(lib.Pick(r, []int{600, 1 << 20})),
 		TargetFileSize: uint64(lib.Pick(r, []int{400, 1 << 20})), L0TableNumCompactionTrigger: lib.Pick(r, []int{1, 2, 4}),
